@@ -58,7 +58,7 @@ def args_for(path, nparams, rng):
         first = open(a).read().split("\n")[0].split()
         try:
             vals = [int(x) for x in first]
-            if len(vals) == nparams:
+            if len(vals) == nparams and all(abs(v) <= 1000 or abs(v) >= 2**31 for v in vals):
                 tuples.append(vals)
         except ValueError:
             pass
@@ -125,9 +125,13 @@ def run(prop):
                 continue
             reached = all(s in st and st[s][0] == "OK" for s in spec["stages"] if not s.startswith("S6"))
             chk.count(path, nontrivial=reached)
-            # panics of the real stages the property owns
+            np_ = main_params(st)
+            valid_main = np_ is not None and np_ <= 5
+            # panics of the real stages the property owns (claimed for programs with a valid entry point)
             for s in spec["stages"]:
-                if s in st and st[s][0] == "PANIC":
+                if s in st and st[s][0] == "PANIC" and valid_main:
+                    if "Out of temporaries" in st[s][1] or "Out of registers" in st[s][1]:
+                        continue  # documented capacity assertion
                     found = True
                     chk.impl_oracle_failures.append({"file": path, "stage": s, "panic": st[s][1][:200]})
                     chk.violation("%s:panic:%s" % (prop, s), "stage %s panics on an accepted program: %s" % (s, st[s][1][:160]),
@@ -142,8 +146,7 @@ def run(prop):
                 if not r[0]:
                     chk.corr["disagreements"] += 1
                     chk.model_disagreements.append({"file": path, "pass": p, "detail": r[1][:400]})
-            np_ = main_params(st)
-            if np_ is None or np_ > 5:
+            if not valid_main:
                 # no valid entry point (C18: main takes at most five integers and returns an integer):
                 # outside the domain of the semantic / typing oracles; dumps were still compared
                 chk.notes["skipped_invalid_main"] = chk.notes.get("skipped_invalid_main", 0) + 1
@@ -161,7 +164,7 @@ def run(prop):
             if reached:
                 seq = lad.sequenced(st)
                 for args in args_for(path, np_, chk.rng):
-                    rungs = lad.run_rungs(st, args, rungs=spec["rungs"], asm=[] if prop != "C12" else ladder.ASM)
+                    rungs = lad.run_rungs(st, args, rungs=spec["rungs"], asm=[] if prop != "C12" else ladder.ASM, mon="none")
                     for owner, la, lb, ba, bb in ladder.disagreements(rungs, seq):
                         if spec["owners"] is not None and owner not in spec["owners"]:
                             continue
